@@ -1,35 +1,40 @@
-/- helper lemmas for C10: what `step` is for each of the nine actions on an object body -/
+/- helper lemmas for C10: what `step` is for each action on an object body -/
 import Proofs.Lemmas.ApiStore
 namespace Asl.Api
 
 /-- the answer and state of `step` from a handler's verdict -/
-def finish (s : State) : Option (Except Str (State × Reply)) → State × Response
+def finish (env : Env) (s : State) : Option (Except Str Verdict) → State × Response
   | none => (s, .invalidAction)
   | some (.error e) => (s, .error e)
-  | some (.ok (s', .json j)) => (s', .ok j)
-  | some (.ok (s', .empty)) => (s', .okEmpty)
+  | some (.ok v) => (s.apply v.effect, s.answer env v.reply)
 
 theorem step_obj (cfg : Cfg) (env : Env) (s : State) (a : Str) (p : Params) :
-    step cfg env s ⟨a, some (.obj p)⟩ = finish s (handle cfg env s a p) := by
+    step cfg env s ⟨a, some (.obj p)⟩ = finish env s (handle cfg env s a p) := by
   simp only [step, finish]
   split <;> simp_all
 
+theorem published_obj (cfg : Cfg) (env : Env) (s : State) (a : Str) (p : Params) :
+    published cfg env s ⟨a, some (.obj p)⟩ =
+      match handle cfg env s a p with
+      | some (.ok v) => v.publish
+      | _ => none := rfl
+
 theorem handle_create (cfg : Cfg) (env : Env) (s : State) (p : Params) :
     handle cfg env s (S "CreateStateMachine") p = some (
-      match validateCreate cfg env s p with
+      match validateCreate cfg env (lookup s.machines) p with
       | .error e => .error e
       | .ok (arn, m) =>
-        .ok ({ s with machines := insert s.machines arn m },
-             .json (.obj [(S "creationDate", .num m.creationDate), (S "stateMachineArn", .str arn)]))) := by
+        .ok ⟨.putMachine arn m,
+             .json (.obj [(S "creationDate", .num m.creationDate), (S "stateMachineArn", .str arn)]),
+             none⟩) := by
   rfl
 
 theorem handle_update (cfg : Cfg) (env : Env) (s : State) (p : Params) :
     handle cfg env s (S "UpdateStateMachine") p = some (
-      match validateUpdate cfg env s p with
+      match validateUpdate cfg env (lookup s.machines) p with
       | .error e => .error e
       | .ok (arn, m) =>
-        .ok ({ s with machines := insert s.machines arn m },
-             .json (.obj [(S "updateDate", .num m.updateDate)]))) := by
+        .ok ⟨.putMachine arn m, .json (.obj [(S "updateDate", .num m.updateDate)]), none⟩) := by
   rfl
 
 theorem handle_delete (cfg : Cfg) (env : Env) (s : State) (p : Params) :
@@ -39,7 +44,7 @@ theorem handle_delete (cfg : Cfg) (env : Env) (s : State) (p : Params) :
       | .ok arn =>
         match lookup s.machines arn with
         | none => .error (S "StateMachineDoesNotExist")
-        | some _ => .ok ({ s with machines := erase s.machines arn }, .empty)) := by
+        | some _ => .ok ⟨.delMachine arn, .empty, none⟩) := by
   rfl
 
 theorem handle_describe (cfg : Cfg) (env : Env) (s : State) (p : Params) :
@@ -49,7 +54,7 @@ theorem handle_describe (cfg : Cfg) (env : Env) (s : State) (p : Params) :
       | .ok arn =>
         match lookup s.machines arn with
         | none => .error (S "StateMachineDoesNotExist")
-        | some m => .ok (s, .json (m.describe arn))) := by
+        | some m => .ok (.read (m.describe arn))) := by
   rfl
 
 theorem handle_describe_for_execution (cfg : Cfg) (env : Env) (s : State) (p : Params) :
@@ -63,21 +68,28 @@ theorem handle_describe_for_execution (cfg : Cfg) (env : Env) (s : State) (p : P
           if !validSmArn e.stateMachineArn then .error (S "InvalidArn") else
           match lookup s.machines e.stateMachineArn with
           | none => .error (S "StateMachineDoesNotExist")
-          | some m => .ok (s, .json (m.forExecution e.stateMachineArn))) := by
+          | some m => .ok (.read (m.forExecution e.stateMachineArn))) := by
   rfl
 
 theorem handle_list (cfg : Cfg) (env : Env) (s : State) (p : Params) :
-    handle cfg env s (S "ListStateMachines") p = some (
-      .ok (s, .json (.obj [(S "stateMachines",
-        .arr (s.machines.map (fun kv => Machine.summary kv.1 kv.2)))]))) := by
+    handle cfg env s (S "ListStateMachines") p = some (.ok ⟨.none, .machines, none⟩) := by
   rfl
 
 theorem handle_start (cfg : Cfg) (env : Env) (s : State) (p : Params) :
     handle cfg env s (S "StartExecution") p = some (
-      match validateStart env s p with
+      match validateStart env (lookup s.machines) p with
       | .error e => .error e
-      | .ok (earn, _) =>
-        .ok (s, .json (.obj [(S "executionArn", .str earn), (S "startDate", .num env.now)]))) := by
+      | .ok x =>
+        .ok (startVerdict env true x
+          (.json (.obj [(S "executionArn", .str x.1), (S "startDate", .num env.now)])))) := by
+  rfl
+
+theorem handle_start_sync (cfg : Cfg) (env : Env) (s : State) (p : Params) :
+    handle cfg env s (S "StartSyncExecution") p =
+      if !cfg.logging then none else some (
+        match validateStartSync env (lookup s.machines) p with
+        | .error e => .error e
+        | .ok x => .ok (startVerdict env false x .sync)) := by
   rfl
 
 theorem handle_list_executions (cfg : Cfg) (env : Env) (s : State) (p : Params) :
@@ -87,9 +99,7 @@ theorem handle_list_executions (cfg : Cfg) (env : Env) (s : State) (p : Params) 
       | .ok arn =>
         match lookup s.machines arn with
         | none => .error (S "StateMachineDoesNotExist")
-        | some _ =>
-          .ok (s, .json (.obj [(S "executions",
-            .arr (listExecutions s arn (statusFilter (arg p "statusFilter"))))]))) := by
+        | some _ => .ok ⟨.none, .executions arn (statusFilter (arg p "statusFilter")), none⟩) := by
   rfl
 
 theorem handle_describe_execution (cfg : Cfg) (env : Env) (s : State) (p : Params) :
@@ -99,7 +109,254 @@ theorem handle_describe_execution (cfg : Cfg) (env : Env) (s : State) (p : Param
       | .ok earn =>
         match lookup s.executions earn with
         | none => .error (S "ExecutionDoesNotExist")
-        | some e => .ok (s, .json (e.toJson earn))) := by
+        | some e => .ok (.read (e.toJson earn))) := by
+  rfl
+
+theorem handle_history (cfg : Cfg) (env : Env) (s : State) (p : Params) :
+    handle cfg env s (S "GetExecutionHistory") p = some (
+      match arnArg validExecArn (arg p "executionArn") with
+      | .error e => .error e
+      | .ok earn =>
+        match lookup s.histories earn with
+        | none => .error (S "ExecutionDoesNotExist")
+        | some [] => .error (S "ExecutionDoesNotExist")
+        | some (ev :: log) =>
+          .ok (.read (.obj [(S "events",
+            .arr (if truthyArg (arg p "reverseOrder") then (ev :: log).reverse else ev :: log))]))) := by
+  rfl
+
+/-- an answer the handler computed itself (always 200) -/
+def Reply.plain : Reply → Bool
+  | .json _ => true
+  | .empty => true
+  | .machines => true
+  | .executions _ _ => true
+  | _ => false
+
+theorem actionOf_name (a : Str) (k : Action) (h : actionOf a = some k) : a = k.name := by
+  have := List.find?_some h
+  exact (of_decide_eq_true this).symm
+
+theorem actionOf_of_name (k : Action) : actionOf k.name = some k := by
+  cases k <;> rfl
+
+theorem decideKind_shape (cfg : Cfg) (env : Env) (ms : Lk Machine) (es : Lk Exec) (hs : Lk (List Json))
+    (k : Action) (p : Params) (v : Verdict) (h : decideKind cfg env ms es hs p k = some (.ok v)) :
+    (v.publish = none ∧ v.reply.plain = true) ∨
+    (v.effect = .none ∧ v.reply = .publishFailed ∧ v.publish = none ∧ env.publishFails = true ∧
+      (k = .start ∨ k = .startSync)) ∨
+    (v.effect = .none ∧ env.publishFails = false ∧ v.publish.isSome = true ∧
+      ((k = .start ∧ ∃ j, v.reply = .json j) ∨ (k = .startSync ∧ v.reply = .sync))) := by
+  cases k
+  all_goals
+    simp only [decideKind] at h
+    repeat' split at h
+  all_goals first | cases h | skip
+  all_goals first
+    | (left; exact ⟨rfl, rfl⟩)
+    | (simp only [startVerdict]
+       by_cases hp : env.publishFails = true
+       · right; left; simp_all
+       · right; right; simp_all)
+
+/-- the three kinds of accepted request: an ordinary one (publishes nothing, answers 200), a
+start the broker refused (writes nothing, publishes nothing), a start that was published
+(writes nothing) -/
+theorem verdict_shape (cfg : Cfg) (env : Env) (ms : Lk Machine) (es : Lk Exec) (hs : Lk (List Json))
+    (a : Str) (p : Params) (v : Verdict) (h : decideAction cfg env ms es hs a p = some (.ok v)) :
+    (v.publish = none ∧ v.reply.plain = true) ∨
+    (v.effect = .none ∧ v.reply = .publishFailed ∧ v.publish = none ∧ env.publishFails = true ∧
+      (a = S "StartExecution" ∨ a = S "StartSyncExecution")) ∨
+    (v.effect = .none ∧ env.publishFails = false ∧ v.publish.isSome = true ∧
+      ((a = S "StartExecution" ∧ ∃ j, v.reply = .json j) ∨
+       (a = S "StartSyncExecution" ∧ v.reply = .sync))) := by
+  unfold decideAction at h
+  cases hk : actionOf a with
+  | none => simp [hk] at h
+  | some k =>
+    simp only [hk] at h
+    have ha := actionOf_name a k hk
+    rcases decideKind_shape cfg env ms es hs k p v h with h1 | h2 | h3
+    · exact Or.inl h1
+    · obtain ⟨e1, e2, e3, e4, e5⟩ := h2
+      refine Or.inr (Or.inl ⟨e1, e2, e3, e4, ?_⟩)
+      rcases e5 with e5 | e5 <;> subst e5 <;> subst ha
+      · exact Or.inl rfl
+      · exact Or.inr rfl
+    · obtain ⟨e1, e2, e3, e4⟩ := h3
+      refine Or.inr (Or.inr ⟨e1, e2, e3, ?_⟩)
+      rcases e4 with ⟨e4, e5⟩ | ⟨e4, e5⟩ <;> subst e4 <;> subst ha
+      · exact Or.inl ⟨rfl, e5⟩
+      · exact Or.inr ⟨rfl, e5⟩
+
+/-- only CreateStateMachine, UpdateStateMachine and DeleteStateMachine write -/
+theorem decideKind_writes (cfg : Cfg) (env : Env) (ms : Lk Machine) (es : Lk Exec) (hs : Lk (List Json))
+    (k : Action) (p : Params) (v : Verdict) (h : decideKind cfg env ms es hs p k = some (.ok v))
+    (hw : v.effect ≠ .none) : k = .create ∨ k = .update ∨ k = .delete := by
+  cases k
+  all_goals
+    simp only [decideKind] at h
+    repeat' split at h
+  all_goals first | cases h | skip
+  all_goals first
+    | (simp at hw; done)
+    | (simp [Verdict.read] at hw; done)
+    | (simp only [startVerdict] at hw; split at hw <;> simp at hw; done)
+    | simp
+
+theorem verdict_writes (cfg : Cfg) (env : Env) (ms : Lk Machine) (es : Lk Exec) (hs : Lk (List Json))
+    (a : Str) (p : Params) (v : Verdict) (h : decideAction cfg env ms es hs a p = some (.ok v))
+    (hw : v.effect ≠ .none) :
+    a = S "CreateStateMachine" ∨ a = S "UpdateStateMachine" ∨ a = S "DeleteStateMachine" := by
+  unfold decideAction at h
+  cases hk : actionOf a with
+  | none => simp [hk] at h
+  | some k =>
+    simp only [hk] at h
+    have ha := actionOf_name a k hk
+    rcases decideKind_writes cfg env ms es hs k p v h hw with e | e | e <;> subst e <;> subst ha
+    · exact Or.inl rfl
+    · exact Or.inr (Or.inl rfl)
+    · exact Or.inr (Or.inr rfl)
+
+theorem arnArg_error (valid : Str → Bool) (x : Option Json) (e : Str) (h : arnArg valid x = .error e) :
+    e = S "MissingRequiredParameter" ∨ e = S "InvalidArn" := by
+  unfold arnArg at h
+  repeat' split at h
+  all_goals first | (cases h; simp; done) | cases h
+
+/-- what StartExecution / StartSyncExecution refuse -/
+theorem validateStart_error (env : Env) (ms : Lk Machine) (p : Params) (e : Str)
+    (h : validateStart env ms p = .error e) :
+    e ∈ [S "MissingRequiredParameter", S "InvalidArn", S "InvalidName", S "InvalidExecutionInput",
+         S "StateMachineDoesNotExist"] := by
+  unfold validateStart at h
+  split at h
+  · rename_i e' hs
+    cases h
+    unfold startArgs at hs
+    split at hs
+    · rename_i e'' ha
+      cases hs
+      rcases arnArg_error _ _ _ ha with r | r <;> simp [r]
+    · repeat' split at hs
+      all_goals first | (cases hs; simp; done) | cases hs
+  · repeat' split at h
+    all_goals first | (cases h; simp; done) | cases h
+
+theorem validateStartSync_error (env : Env) (ms : Lk Machine) (p : Params) (e : Str)
+    (h : validateStartSync env ms p = .error e) :
+    e ∈ [S "MissingRequiredParameter", S "InvalidArn", S "InvalidName", S "InvalidExecutionInput",
+         S "StateMachineDoesNotExist", S "StateMachineTypeNotSupported"] := by
+  unfold validateStartSync at h
+  split at h
+  · rename_i e' hv
+    cases h
+    have := validateStart_error env ms p e hv
+    simp only [List.mem_cons] at this ⊢
+    rcases this with r | r | r | r | r | r
+    · exact Or.inl r
+    · exact Or.inr (Or.inl r)
+    · exact Or.inr (Or.inr (Or.inl r))
+    · exact Or.inr (Or.inr (Or.inr (Or.inl r)))
+    · exact Or.inr (Or.inr (Or.inr (Or.inr (Or.inl r))))
+    · simp at r
+  · split at h
+    · cases h
+    · cases h; simp
+
+/-- GetExecutionHistory without a stored (non-empty) log, or with an unacceptable ARN argument -/
+theorem history_refused (cfg : Cfg) (env : Env) (s : State) (p : Params) :
+    (∀ earn, arnArg validExecArn (arg p "executionArn") = .ok earn →
+      (lookup s.histories earn = none ∨ lookup s.histories earn = some []) →
+      step cfg env s ⟨S "GetExecutionHistory", some (.obj p)⟩ = (s, .error (S "ExecutionDoesNotExist"))) ∧
+    (∀ e, arnArg validExecArn (arg p "executionArn") = .error e →
+      step cfg env s ⟨S "GetExecutionHistory", some (.obj p)⟩ = (s, .error e)) := by
+  refine ⟨?_, ?_⟩
+  · intro earn ha hl
+    rcases hl with hl | hl <;>
+      simp only [step_obj, handle_history, ha, hl, finish]
+  · intro e ha
+    simp only [step_obj, handle_history, ha, finish]
+
+/-- the four ways a request ends -/
+theorem step_cases (cfg : Cfg) (env : Env) (s : State) (c : Call) :
+    (step cfg env s c = (s, .error (S "SerializationException")) ∧ published cfg env s c = none) ∨
+    (∃ p, c.params = some (.obj p) ∧ handle cfg env s c.action p = none ∧
+      step cfg env s c = (s, .invalidAction) ∧ published cfg env s c = none) ∨
+    (∃ p e, c.params = some (.obj p) ∧ handle cfg env s c.action p = some (.error e) ∧
+      step cfg env s c = (s, .error e) ∧ published cfg env s c = none) ∨
+    (∃ p v, c.params = some (.obj p) ∧ handle cfg env s c.action p = some (.ok v) ∧
+      step cfg env s c = (s.apply v.effect, s.answer env v.reply) ∧
+      published cfg env s c = v.publish) := by
+  obtain ⟨a, ps⟩ := c
+  cases ps with
+  | none => exact Or.inl ⟨rfl, rfl⟩
+  | some j =>
+    cases j with
+    | obj p =>
+      right
+      cases hh : handle cfg env s a p with
+      | none =>
+        refine Or.inl ⟨p, rfl, hh, ?_, ?_⟩
+        · rw [step_obj, hh]; rfl
+        · rw [published_obj, hh]
+      | some r =>
+        cases r with
+        | error e =>
+          refine Or.inr (Or.inl ⟨p, e, rfl, hh, ?_, ?_⟩)
+          · rw [step_obj, hh]; rfl
+          · rw [published_obj, hh]
+        | ok v =>
+          refine Or.inr (Or.inr ⟨p, v, rfl, hh, ?_, ?_⟩)
+          · rw [step_obj, hh]; rfl
+          · rw [published_obj, hh]
+    | _ => exact Or.inl ⟨rfl, rfl⟩
+
+theorem answer_plain (env : Env) (s : State) (r : Reply) (h : r.plain = true) :
+    (s.answer env r).isError = false ∧ (s.answer env r).status = 200 := by
+  cases r <;> simp_all [Reply.plain, State.answer, Response.isError, Response.status]
+
+theorem answer_sync (env : Env) (s : State) :
+    (s.answer env .sync = .timedOut ∧ env.syncOutcome = none) ∨
+    (∃ d, s.answer env .sync = .ok d ∧ env.syncOutcome = some d) := by
+  simp only [State.answer]
+  cases env.syncOutcome with
+  | none => exact Or.inl ⟨rfl, rfl⟩
+  | some d => exact Or.inr ⟨d, rfl, rfl⟩
+
+/-- the members of a DescribeStateMachine answer -/
+theorem describe_members (arn : Str) (m : Machine) :
+    ∃ kvs, m.describe arn = .obj kvs ∧
+      objGet kvs (S "definition") = some (.str (render m.definition)) ∧
+      objGet kvs (S "name") = some (.str m.name) ∧
+      objGet kvs (S "roleArn") = some (.str m.roleArn) ∧
+      objGet kvs (S "stateMachineArn") = some (.str arn) ∧
+      objGet kvs (S "creationDate") = some (.num m.creationDate) ∧
+      objGet kvs (S "updateDate") = some (.num m.updateDate) ∧
+      objGet kvs (S "type") = some (.str m.type) := by
+  cases hlg : m.logging with
+  | none =>
+    refine ⟨_, by simp only [Machine.describe, Machine.toJson, hlg]; rfl, ?_⟩
+    simp [objGet, S]
+  | some lg =>
+    refine ⟨_, by simp only [Machine.describe, Machine.toJson, hlg]; rfl, ?_⟩
+    simp [objGet, S]
+
+/-- a successful CreateStateMachine, as a step -/
+theorem step_create_ok (cfg : Cfg) (env : Env) (s : State) (p : Params) (arn : Str) (m : Machine)
+    (hv : validateCreate cfg env (lookup s.machines) p = .ok (arn, m)) :
+    step cfg env s ⟨S "CreateStateMachine", some (.obj p)⟩ =
+      ({ s with machines := insert s.machines arn m },
+       .ok (.obj [(S "creationDate", .num m.creationDate), (S "stateMachineArn", .str arn)])) := by
+  rw [step_obj, handle_create, hv]; rfl
+
+/-- DescribeStateMachine of a stored machine under an acceptable ARN -/
+theorem step_describe_ok (cfg : Cfg) (env : Env) (s : State) (q : Params) (arn : Str) (m : Machine)
+    (ha : arnArg validSmArn (arg q "stateMachineArn") = .ok arn) (hl : lookup s.machines arn = some m) :
+    step cfg env s ⟨S "DescribeStateMachine", some (.obj q)⟩ = (s, .ok (m.describe arn)) := by
+  rw [step_obj, handle_describe, ha]
+  simp only [hl]
   rfl
 
 /-- a well-formed ARN argument -/
@@ -124,7 +381,7 @@ theorem arnArg_ok_inv (valid : Str → Bool) (x : Option Json) (a : Str)
 theorem decodeDefinition_ok (cfg : Cfg) (env : Env) (j d : Json)
     (h : decodeDefinition cfg env j = .ok d) :
     ∃ t, j = .str t ∧ parseJson t = some d ∧ t ≠ [] ∧
-      (cfg.logging && cfg.validateAsl && env.lintBad) = false := by
+      (cfg.logging && cfg.validateAsl && (env.lintBad || hasDuplicateNames t)) = false := by
   unfold decodeDefinition at h
   split at h
   · rename_i t
@@ -149,6 +406,7 @@ theorem createKey_ok (cfg : Cfg) (p : Params) (arn name role ty : Str)
     arg p "name" = some (.str name) ∧ validName name = true ∧
     arg p "roleArn" = some (.str role) ∧ validRoleArn role = true ∧
     (ty = S "STANDARD" ∨ ty = S "EXPRESS") ∧
+    (cfg.quirks.createUncheckedArn = false → validSmArn arn = true) ∧
     ∃ account, roleAccount role = some account ∧ arn = smArnOf cfg.region account name := by
   unfold createKey at h
   split at h
@@ -165,25 +423,30 @@ theorem createKey_ok (cfg : Cfg) (p : Params) (arn name role ty : Str)
           · cases h
           · rename_i account hacc
             split at h
-            · rename_i ty' hty
-              split at h
-              · cases h
-              · rename_i htok
-                cases h
-                refine ⟨hn, by simpa using hvn, hr, by simpa using hvr, ?_, account, hacc, rfl⟩
-                have htok' : ¬ty = S "STANDARD" → ty = S "EXPRESS" := by simpa using htok
-                by_cases e : ty = S "STANDARD"
-                · exact Or.inl e
-                · exact Or.inr (htok' e)
             · cases h
+            · rename_i hchk
+              split at h
+              · rename_i ty' hty
+                split at h
+                · cases h
+                · rename_i htok
+                  cases h
+                  refine ⟨hn, by simpa using hvn, hr, by simpa using hvr, ?_, ?_, account, hacc, rfl⟩
+                  · have htok' : ¬ty = S "STANDARD" → ty = S "EXPRESS" := by simpa using htok
+                    by_cases e : ty = S "STANDARD"
+                    · exact Or.inl e
+                    · exact Or.inr (htok' e)
+                  · intro hq
+                    simpa [hq] using hchk
+              · cases h
       · cases h
   · cases h
 
 /-- a successful CreateStateMachine validation, taken apart -/
-theorem validateCreate_ok (cfg : Cfg) (env : Env) (s : State) (p : Params) (arn : Str) (m : Machine)
-    (h : validateCreate cfg env s p = .ok (arn, m)) :
+theorem validateCreate_ok (cfg : Cfg) (env : Env) (ms : Lk Machine) (p : Params) (arn : Str) (m : Machine)
+    (h : validateCreate cfg env ms p = .ok (arn, m)) :
     createKey cfg p = .ok (arn, m.name, m.roleArn, m.type) ∧
-    lookup s.machines arn = none ∧
+    ms arn = none ∧
     decodeDefinition cfg env ((arg p "definition").getD (.str [])) = .ok m.definition ∧
     m.definition.truthy = true ∧
     createLogging cfg p = .ok m.logging ∧
@@ -206,14 +469,14 @@ theorem validateCreate_ok (cfg : Cfg) (env : Env) (s : State) (p : Params) (arn 
           · rename_i lg hlg
             cases h
             refine ⟨hk, ?_, hd, by simpa using htr, hlg, rfl, rfl⟩
-            cases hlk : lookup s.machines arn with
+            cases hlk : ms arn with
             | none => rfl
             | some x => simp [hlk] at hl
 
 /-- with the machine already there, CreateStateMachine is refused -/
-theorem validateCreate_dup (cfg : Cfg) (env : Env) (s : State) (p : Params) (arn name role ty : Str)
-    (hk : createKey cfg p = .ok (arn, name, role, ty)) (hl : (lookup s.machines arn).isSome = true) :
-    validateCreate cfg env s p = .error (S "StateMachineAlreadyExists") := by
+theorem validateCreate_dup (cfg : Cfg) (env : Env) (ms : Lk Machine) (p : Params) (arn name role ty : Str)
+    (hk : createKey cfg p = .ok (arn, name, role, ty)) (hl : (ms arn).isSome = true) :
+    validateCreate cfg env ms p = .error (S "StateMachineAlreadyExists") := by
   unfold validateCreate
   rw [hk]
   simp [hl]
@@ -284,10 +547,10 @@ theorem updLogging_ok (cfg : Cfg) (p : Params) (l : Option Json) (h : updLogging
       simp_all
 
 /-- a successful UpdateStateMachine validation, taken apart -/
-theorem validateUpdate_ok (cfg : Cfg) (env : Env) (s : State) (p : Params) (arn : Str) (m' : Machine)
-    (h : validateUpdate cfg env s p = .ok (arn, m')) :
+theorem validateUpdate_ok (cfg : Cfg) (env : Env) (ms : Lk Machine) (p : Params) (arn : Str) (m' : Machine)
+    (h : validateUpdate cfg env ms p = .ok (arn, m')) :
     ∃ m role d lc, arnArg validSmArn (arg p "stateMachineArn") = .ok arn ∧
-      lookup s.machines arn = some m ∧ updRole p = .ok role ∧ updDefinition cfg env p = .ok d ∧
+      ms arn = some m ∧ updRole p = .ok role ∧ updDefinition cfg env p = .ok d ∧
       updLogging cfg p = .ok lc ∧
       m' = { m with roleArn := role.getD m.roleArn, definition := d.getD m.definition,
                     logging := (match lc with | some l => some l | none => m.logging),
@@ -313,9 +576,9 @@ theorem validateUpdate_ok (cfg : Cfg) (env : Env) (s : State) (p : Params) (arn 
               cases h
               exact ⟨m, role, d, lc, ha, hm, hr, hd, hlc, rfl⟩
 
-theorem validateUpdate_unknown (cfg : Cfg) (env : Env) (s : State) (p : Params) (arn : Str)
-    (ha : arnArg validSmArn (arg p "stateMachineArn") = .ok arn) (hl : lookup s.machines arn = none) :
-    validateUpdate cfg env s p = .error (S "StateMachineDoesNotExist") := by
+theorem validateUpdate_unknown (cfg : Cfg) (env : Env) (ms : Lk Machine) (p : Params) (arn : Str)
+    (ha : arnArg validSmArn (arg p "stateMachineArn") = .ok arn) (hl : ms arn = none) :
+    validateUpdate cfg env ms p = .error (S "StateMachineDoesNotExist") := by
   unfold validateUpdate
   rw [ha]
   simp [hl]
